@@ -91,6 +91,9 @@ func (l *VerifLimiter) Startup() {
 	withAccessTime, err := l.s.readStorableAccessTimes()
 	if err == nil {
 		for n, i := range withAccessTime {
+			if _, onDisk := l.s.withoutAccessTime[n]; !onDisk {
+				continue
+			}
 			l.s.withAccessTime[n] = i
 			delete(l.s.withoutAccessTime, n)
 		}
